@@ -47,7 +47,9 @@ var Texts = []string{"BL", "1.2.3", "sha-256", "TF-M_SHA256MemPreXIP", "ünïcö
 	// text that LOOKS like a JSON / HTML escape but is literal content
 	`C:\updates\u0026x`, `[^\u003c]`, `\u003e`, `a\\u0026b`, `\n literal`, `\u2028`, `&amp;`, `%26`, `\"`, `\`, `\\`, "\u2028\u2029", `</script>`, "\ufeffbom", "\u007f",
 	// text that equals a member name / a profile name
-	"psa-profile", "eat-profile", "psa-nonce", "PSA_IOT_PROFILE_1", "http://arm.com/psa/2.0.0", "null", "true", "{}", "[]"}
+	"psa-profile", "eat-profile", "psa-nonce", "PSA_IOT_PROFILE_1", "http://arm.com/psa/2.0.0", "null", "true", "{}", "[]",
+	// names an implementation might be tempted to normalise, things that are not URIs, surrounding white space, trailing NUL
+	"SHA256", "SHA_384", "sha512", "192.0.2.1:8443", "100%", "a b#c%zz", ":", " padded ", "trailing-nul\x00", "\u00a0", "\t"}
 
 // LongTexts: strings whose length in octets and in characters differ widely
 // and straddle 64 / 255 / 256 (code that measures one and cuts by the other
